@@ -18,7 +18,7 @@ from harness import ws
 from harness.core import run_forked, setup_repo_imports
 
 EDITACTS = ["access", "call_other", "set_efth", "set_dir", "set_freq", "call_unknown", "other_shape", "reader_calls"]
-OBS_OPS = ["hs", "dm", "dspr", "tp", "oned", "smooth33", "rotate45", "ptm3", "dd", "stats_dict", "tm02", "dp", "rmse_partial", "meta"]
+OBS_OPS = ["hs", "dm", "dspr", "tp", "oned", "smooth33", "rotate45", "ptm3", "dd", "stats_dict", "tm02", "dp", "rmse_partial", "meta", "hp01"]
 # sample files of the repository read as "reader calls on other objects": one- and two-dimensional instrument files, model output
 READER_SAMPLES = [("read_triaxys", "triaxys.NONDIRSPEC"), ("read_triaxys", "triaxys.DIRSPEC"), ("read_swan", "swanfile.spec"),
                   ("read_octopus", "octopusfile.oct"), ("read_json", "jsonfile.json"), ("read_funwave", "funwavefile.txt"),
@@ -87,6 +87,8 @@ def observe(obj, op):
     if isinstance(obj, xr.Dataset):
         if op in ("ptm3",):
             return S.project(obj.spec.partition.ptm3(parts=3))
+        if op == "hp01":
+            return S.project(S.call(obj["efth"], "hp01", ds_accessor=True))
         return S.project(S.call(obj["efth"], op, ds_accessor=False) if False else call_ds(obj, op))
     return S.project(S.call(obj, op))
 
@@ -260,15 +262,15 @@ def run(ctx):
     ctx.note("histories_from_tlc", len(hist))
     ctx.exhaustive = True
     ctx.rule = ("TLC: all interleavings of <= %d mechanism actions; Session.tla: all histories of <= %d edit/call actions; every history x "
-                "{Dataset, DataArray} x observed operations (quick: all histories of <= 2 actions and a seeded two fifths of the longer ones, a seeded third of the operations) replayed and compared with a fresh object evaluated in a "
+                "{Dataset, DataArray} x observed operations (quick: all histories of <= 2 actions and a seeded quarter of the longer ones, a seeded third of the operations) replayed and compared with a fresh object evaluated in a "
                 "pristine child process. distinct_nontrivial = distinct (history, kind, operation) with a non-empty history." % (steps, maxlen))
     other = xr.DataArray(np.arange(30.0).reshape(5, 6) % 7, coords={"freq": np.linspace(0.05, 0.25, 5), "dir": np.arange(0.0, 360.0, 60.0)},
                          dims=("freq", "dir"), name="efth")
     from harness.core import REPO
     sample = REPO + "/tests/sample_files/swanfile.spec"
     for acts, ver in hist:
-        if ctx.quick and len(acts) >= 3 and hash((acts, ctx.seed)) % 5 >= 2:
-            continue          # quick: every history of one or two actions, a seeded 40 % of those of three
+        if ctx.quick and len(acts) >= 3 and hash((acts, ctx.seed)) % 4:
+            continue          # quick: every history of one or two actions, a seeded quarter of those of three
         for kind_ in ("ds", "da"):
             obj = S.make(1, 1)
             if kind_ == "ds":
@@ -282,6 +284,7 @@ def run(ctx):
                         obj.spec.hs()
                         obj.spec.dd
                         obj.spec.dm()
+                        S.call(obj["efth"] if kind_ == "ds" else obj, "hp01")      # the merging tables of HP01 are built for this grid now
                     elif a == "set_efth":
                         cv = arg
                         if kind_ == "ds":
@@ -313,6 +316,8 @@ def run(ctx):
                         other.spec.partition.ptm3(parts=2)
                         read_swan(sample).spec.hs()
                         other.spec.fit_jonswap()          # reaches the construct helpers (scaled, jonswap) on another object
+                        for fg in (1, 2):                 # HP01 on OTHER arrays of this object's shape, on either frequency grid
+                            S.call(S.make(2, 1, fgrid=fg), "hp01")
             except Exception as ex:  # noqa
                 ctx.violation({"history": [a for a, _ in acts], "kind": kind_, "raised": type(ex).__name__},
                               "history %s raised %s" % ([a for a, _ in acts], type(ex).__name__), {"err": str(ex)[:300]})
@@ -321,7 +326,9 @@ def run(ctx):
                 if ctx.quick and len(acts) >= 2 and hash((acts, kind_, op, ctx.seed)) % 3:
                     continue
                 if ctx.quick and op == "meta" and len(acts) >= 2 and not any(a in ("reader_calls", "other_shape", "call_unknown") for a, _ in acts):
-                    continue      # metadata is stamped from the attribute table: observed after the histories that reach the table
+                    continue
+                if ctx.quick and op == "hp01" and len(acts) >= 2 and not any(a in ("call_other", "other_shape") for a, _ in acts):
+                    continue      # HP01's tables could only be left behind by an earlier HP01 call      # metadata is stamped from the attribute table: observed after the histories that reach the table
                 ctx.case((acts, kind_, op), bool(acts))
                 try:
                     got = observe(obj, op)
